@@ -1,6 +1,6 @@
 SPECIFICATION Spec
 CONSTANTS
-  Leaves = {"1px", "1in", "2em", "3", "50%", "var(--a)"}
+  Leaves = {"1px", "2px", "1in", "2em", "3", "50%", "1x", "var(--a)"}
   Ops = {"+", "-", "*", "/"}
   Tops = {"calc("}
   Fns = {}
